@@ -35,14 +35,17 @@ Theorem C04_excluded_component_not_queued :
     forall u v, In (u, t, v) (t_queue (frame pr o)) -> In (u, t, v) (t_queue pr).
 Proof. exact excluded_type_not_queued. Qed.
 
-(* asset updates: relayed, or the class is enabled on this peer (and the URL is this peer's) *)
+(* asset updates: relayed, or the class is enabled on this peer and the URL is this peer's own — or, in
+   the snapshot for a joining client since the repair of S26 (8b1d5d0), the URL this peer was given for
+   an asset of an enabled class it is still downloading *)
 Theorem C04_originated_assets_enabled :
   forall pr o,
     p_panic pr = None -> app_cmds_ok pr ->
     (forall dst a v, In (dst, MMaterial a v) (p_out (frame pr o)) ->
        relayed pr (MMaterial a v) \/ t_mat pr = true) /\
     (forall dst c a owner, In (dst, MAsset c a owner) (p_out (frame pr o)) ->
-       relayed pr (MAsset c a owner) \/ (class_enabled pr (KClass c) = true /\ owner = p_id pr)).
+       relayed pr (MAsset c a owner) \/
+       (class_enabled pr (KClass c) = true /\ (owner = p_id pr \/ downloading pr c a owner))).
 Proof. exact originated_assets_enabled. Qed.
 
 (* an entity never marked / never synchronised: no originated message mentions it, it is never
@@ -72,7 +75,10 @@ Theorem C04_snapshot_opted_in :
           | w => t' = t /\ v = w
           end
     | MMaterial _ _ => t_mat pr = true
-    | MAsset c _ owner => class_enabled pr (KClass c) = true /\ owner = p_id pr
+    | MAsset c a owner =>
+        class_enabled pr (KClass c) = true /\
+        ((owner = p_id pr /\ ~ download_pending pr c a /\ exists v, a_store pr !! akey (KClass c) a = Some v) \/
+         (In (a, owner) (pending_of pr c) /\ latest_owner pr c a owner))
     | _ => False
     end.
 Proof. exact snapshot_opted. Qed.
